@@ -1,7 +1,7 @@
 (* The abstraction of a "finite map from external positions to stored values" to the masked n-d array of the
    reference (abs_of), and what the reference operations do on such arrays.  Both concrete models are then related to
    the reference through their lookup functions (StoreFileFacts.v, StoreDictFacts.v). *)
-From Verif Require Import Base.Prelude Base.Index Base.PySlice Model.Store
+From Verif Require Import Base.Prelude Base.Index Base.PySlice Model.Store Model.StoreSpec
   Proofs.IndexFacts Proofs.PySliceFacts Proofs.StoreBase.
 
 (* ---------- keys (no geometry needed) ---------- *)
@@ -161,45 +161,33 @@ Section Abs.
   Proof. intros H. apply merge_ext_int. rewrite (in_bounds_length _ _ H). apply full_length. Qed.
 
   (* ---------- the abstraction ---------- *)
-  Definition cell_of (ov : option sval) (j : nat) : cell :=
-    match ov with None => Masked | Some v => nth_cell E v j end.
-
-  Definition cell_at (look : list nat -> option sval) (p : list nat) : cell :=
-    cell_of (look (ext_of mask p)) (ravel int (int_of mask p)).
-
-  Definition abs_of (look : list nat -> option sval) : list cell := map (cell_at look) (all_indices full).
-
-  (* every stored value has the internal shape *)
-  Definition good (look : list nat -> option sval) : Prop :=
-    forall e v, in_bounds ext e = true -> look e = Some v -> length v = prod int.
-
-  Lemma abs_length look : length (abs_of look) = prod full.
+  Lemma abs_length look : length (abs_of E g look) = prod full.
   Proof. unfold abs_of. now rewrite map_length, all_indices_length. Qed.
 
-  Lemma nd_get_abs look p : in_bounds full p = true -> nd_get E full (abs_of look) p = cell_at look p.
+  Lemma nd_get_abs look p : in_bounds full p = true -> nd_get E full (abs_of E g look) p = cell_at E g look p.
   Proof. intros H. unfold abs_of. now apply nd_get_map_all. Qed.
 
   Lemma abs_ext look1 look2 :
-    (forall e, in_bounds ext e = true -> look1 e = look2 e) -> abs_of look1 = abs_of look2.
+    (forall e, in_bounds ext e = true -> look1 e = look2 e) -> abs_of E g look1 = abs_of E g look2.
   Proof.
     intros H. unfold abs_of. apply map_ext_in. intros p Hp. apply in_all_indices in Hp.
     unfold cell_at. rewrite H; [reflexivity|]. now apply full_split.
   Qed.
 
-  Lemma abs_empty : abs_of (fun _ => None) = absent E g.
+  Lemma abs_empty : abs_of E g (fun _ => None) = absent E g.
   Proof.
     unfold abs_of, absent, cell_at. cbn. rewrite map_const_repeat. now rewrite all_indices_length.
   Qed.
 
   Lemma nd_get_abs_merge look e j : in_bounds ext e = true -> in_bounds int j = true ->
-    nd_get E full (abs_of look) (merge mask e j) = cell_of (look e) (ravel int j).
+    nd_get E full (abs_of E g look) (merge mask e j) = cell_of E (look e) (ravel int j).
   Proof.
     intros He Hj. rewrite nd_get_abs by (now apply full_merge). unfold cell_at.
     destruct (ext_int_of_merge e j He Hj) as [-> ->]. reflexivity.
   Qed.
 
-  Lemma fetch_ok look p : good look -> in_bounds full p = true ->
-    fetch E g (look (ext_of mask p)) p = Ok (cell_at look p).
+  Lemma fetch_ok look p : good E g look -> in_bounds full p = true ->
+    fetch E g (look (ext_of mask p)) p = Ok (cell_at E g look p).
   Proof.
     intros Hgood Hp. unfold fetch, cell_at, cell_of, nth_cell.
     destruct (full_split p Hp) as [He Hj].
@@ -232,12 +220,7 @@ Section Abs.
   Qed.
 
   (* ---------- __getitem__ ---------- *)
-  Definition getL (look : list nat -> option sval) (key : list kitem) : result (out E) :=
-    do nk <- norm_key_ref full key;
-    do axes <- axes_of full nk;
-    Ok (OArr (slice_lens nk axes) (map (cell_at look) (cart axes))).
-
-  Lemma getM_abs look key : getM E g (abs_of look) key = getL look key.
+  Lemma getM_abs look key : getM E g (abs_of E g look) key = getL E g look key.
   Proof.
     unfold getM, getL. destruct (norm_key_ref full key) as [nk|e] eqn:En; cbn [bind]; [|reflexivity].
     destruct (axes_of full nk) as [axes|e] eqn:Ea; cbn [bind]; [|reflexivity].
@@ -247,18 +230,9 @@ Section Abs.
   Qed.
 
   (* ---------- dump ---------- *)
-  Definition look_dump (look : list nat -> option sval) (sel : list (list nat)) (v : sval) :=
-    fun e => if mem_idx e sel then Some v else look e.
-
-  Definition dumpL (look : list nat -> option sval) (key : list kitem) (v : sval)
-    : result (list nat -> option sval) :=
-    do nk <- norm_key_ref ext key;
-    do axes <- axes_of ext nk;
-    Ok (look_dump look (cart axes) v).
-
   Lemma dumpM_abs look key v :
-    dumpM E g (abs_of look) key v =
-    match dumpL look key v with Ok look' => Ok (abs_of look') | Err e => Err e end.
+    dumpM E g (abs_of E g look) key v =
+    match dumpL E g look key v with Ok look' => Ok (abs_of E g look') | Err e => Err e end.
   Proof.
     unfold dumpM, dumpL. destruct (norm_key_ref ext key) as [nk|e]; cbn [bind]; [|reflexivity].
     destruct (axes_of ext nk) as [axes|e]; cbn [bind]; [|reflexivity].
@@ -267,7 +241,7 @@ Section Abs.
     destruct (mem_idx (ext_of mask p) (cart axes)); reflexivity.
   Qed.
 
-  Lemma good_dump look sel v : good look -> length v = prod int -> good (look_dump look sel v).
+  Lemma good_dump look sel v : good E g look -> length v = prod int -> good E g (look_dump E look sel v).
   Proof.
     intros Hgood Lv e w He. unfold look_dump. destruct (mem_idx e sel).
     - intros H. injection H as <-. assumption.
@@ -275,10 +249,8 @@ Section Abs.
   Qed.
 
   (* ---------- mask / has_index / get_from_index ---------- *)
-  Definition is_none {A} (o : option A) : bool := match o with None => true | Some _ => false end.
-
-  Lemma ext_missing_abs look e : good look -> in_bounds ext e = true ->
-    ext_missing E g (abs_of look) e = is_none (look e).
+  Lemma ext_missing_abs look e : good E g look -> in_bounds ext e = true ->
+    ext_missing E g (abs_of E g look) e = is_none (look e).
   Proof.
     intros Hgood He. unfold ext_missing.
     destruct (look e) as [v|] eqn:El; cbn [is_none].
@@ -295,15 +267,15 @@ Section Abs.
       rewrite nd_get_abs_merge by assumption. now rewrite El.
   Qed.
 
-  Lemma mask_linearM_abs look : good look ->
-    mask_linearM E g (abs_of look) = map (fun e => is_none (look e)) (all_indices ext).
+  Lemma mask_linearM_abs look : good E g look ->
+    mask_linearM E g (abs_of E g look) = map (fun e => is_none (look e)) (all_indices ext).
   Proof.
     intros Hgood. unfold mask_linearM. apply map_ext_in. intros e He. apply in_all_indices in He.
     now apply ext_missing_abs.
   Qed.
 
-  Lemma hasM_abs look i : good look -> i < size g ->
-    hasM E g (abs_of look) i = negb (is_none (look (unravel ext i))).
+  Lemma hasM_abs look i : good E g look -> i < size g ->
+    hasM E g (abs_of E g look) i = negb (is_none (look (unravel ext i))).
   Proof.
     intros Hgood Hi. unfold hasM. rewrite ext_missing_abs; auto. now apply unravel_in_bounds.
   Qed.
@@ -314,8 +286,8 @@ Section Abs.
     cbn [length seq map]. f_equal. rewrite <- seq_shift, map_map. exact IH.
   Qed.
 
-  Lemma get_from_indexM_abs look i v : good look -> i < size g -> look (unravel ext i) = Some v ->
-    get_from_indexM E g (abs_of look) i = map Val v.
+  Lemma get_from_indexM_abs look i v : good E g look -> i < size g -> look (unravel ext i) = Some v ->
+    get_from_indexM E g (abs_of E g look) i = map Val v.
   Proof.
     intros Hgood Hi El. unfold get_from_indexM.
     assert (in_bounds ext (unravel ext i) = true) as He by (now apply unravel_in_bounds).
@@ -326,8 +298,8 @@ Section Abs.
 
   (* ---------- to_array: an array that agrees with cell_at on every position is the abstraction ---------- *)
   Lemma to_array_abs look (a : list cell) :
-    length a = prod full -> (forall p, in_bounds full p = true -> nd_get E full a p = cell_at look p) ->
-    a = abs_of look.
+    length a = prod full -> (forall p, in_bounds full p = true -> nd_get E full a p = cell_at E g look p) ->
+    a = abs_of E g look.
   Proof.
     intros La H. apply (nd_ext E full); [assumption|apply abs_length|].
     intros p Hp. rewrite nd_get_abs by assumption. now apply H.
@@ -335,10 +307,10 @@ Section Abs.
 
   (* the positions assigned by the splat loops, and their values *)
   Lemma splat_assignments_spec look (items : list (list nat * option sval)) :
-    good look ->
+    good E g look ->
     (forall e ov, In (e, ov) items -> in_bounds ext e = true /\ ov = look e) ->
     exists pcs, splat_assignments E g items = Ok pcs
-      /\ (forall p c, In (p, c) pcs -> in_bounds full p = true /\ c = cell_at look p)
+      /\ (forall p c, In (p, c) pcs -> in_bounds full p = true /\ c = cell_at E g look p)
       /\ (forall p, in_bounds full p = true ->
             mem_idx p (map fst pcs) = mem_idx (ext_of mask p) (map fst items)).
   Proof.
@@ -350,7 +322,7 @@ Section Abs.
       apply in_map_iff in Hj as [j' [Heq Hj']]. cbn in Heq. injection Heq as -> -> ->.
       destruct (Hitems _ _ Hin) as [He ->]. apply in_all_indices in Hj'. auto. }
     exists (map (fun ej : list nat * option sval * list nat =>
-                   let '(e, ov, j) := ej in (merge mask e j, cell_at look (merge mask e j))) triples).
+                   let '(e, ov, j) := ej in (merge mask e j, cell_at E g look (merge mask e j))) triples).
     split; [|split].
     - apply mapM_ok. intros [[e ov] j] Hin. destruct (Htr _ _ _ Hin) as [He [-> Hj]].
       pose proof (full_merge e j He Hj) as Hp.
